@@ -312,6 +312,8 @@ func runC02(c *Ctx) {
 
 	// R6: fresh ephemerals
 	c02Ephemerals(c, p, dial)
+	// R9: the configured identity bytes are used as given (a key that differs in any bit is a different key)
+	c08Verbatim(c, p, "R9")
 }
 
 func c02MacKey(c *Ctx, p *Prog, typ, idField string, viaPublic bool) {
@@ -568,6 +570,17 @@ func c02Ephemerals(c *Ctx, p *Prog, dial *ssa.Function) {
 		}
 		if len(or) == 0 {
 			bad = "origin of the keypair not found"
+		}
+		// per connection: on its way from NewKeypair to the handshake the keypair is never parked in
+		// an object that outlives the connection (a factory or transport field is shared by all
+		// connections, also concurrent ones)
+		if bad == "" {
+			_, via := p.OriginsVia(st[0].Val)
+			for _, k := range via {
+				if strings.HasSuffix(k.Type, "ServerFactory") || strings.HasSuffix(k.Type, "ClientFactory") || strings.HasSuffix(k.Type, ".Transport") {
+					bad = "the keypair passes through the shared field " + k.Type + "." + k.Field + ": two connections can get the same ephemeral key"
+				}
+			}
 		}
 		if bad != "" {
 			ob.Violate("%s", bad)
